@@ -3,7 +3,7 @@ import SimbodyModel.C34
 # C36 — mesh queries and bounding volumes: executable model
 
 * `Obb`: `OrientedBoundingBox::containsPoint / findNearestPoint / intersectsRay` (`OrientedBoundingBox.cpp`);
-* `triNearest`: `TriangleMesh::Impl::findNearestPointToFace` (Eberly's seven regions, **as coded**);
+* `triNearest`: `TriangleMesh::Impl::findNearestPointToFace` (Eberly's seven regions, as coded after fix b3f19b8d);
 * `triRay`: the leaf test of `OBBTreeNodeImpl::intersectsRay`;
 * `BT` / `search`: the branch-and-bound descent shared by `OBBTreeNodeImpl::findNearestPoint` and
   `OBBTreeNodeImpl::intersectsRay` over an *abstract* tree whose nodes carry the query's lower bounds
@@ -109,7 +109,7 @@ def triNearest (v1 v2 v3 p : V3 K) : V3 K × K × K :=
           let denom := a - 2 * b + c
           let t' := if ge numer denom then 1 else numer / denom
           (1 - t', t')
-        else ((if le temp1 0 then 1 else (if ge e 0 then 0 else -d / a)), 0)     -- sic: tests `e`, Eberly has `d`
+        else ((if le temp1 0 then 1 else (if ge d 0 then 0 else -d / a)), 0)     -- `d >= 0` since fix b3f19b8d (was `e >= 0`, finding F12)
       else                                              -- region 1
         let numer := c + e - b - d
         let s' := if le numer 0 then 0 else
